@@ -623,6 +623,25 @@ def loop_source(fn, lp):
     return ok, src, names, base
 
 
+def value_after(fn, node, root):
+    """The expression whose value `root` yields when control leaves `node` normally: the tail of the innermost enclosing block in
+    which something follows, re-evaluated at every outer block (None: unit)."""
+    val = None
+    cur = node
+    for anc in fn.ancestors(node):
+        if anc.get("k") == "block":
+            seq = list(anc["st"]) + ([anc["tail"]] if "tail" in anc else [])
+            pos = next((i for i, s in enumerate(seq) if s is cur), None)
+            if pos is not None and pos < len(seq) - 1:
+                val = anc.get("tail")
+        if anc is root:
+            break
+        cur = anc
+    while val is not None and val.get("k") == "block" and not val["st"] and "tail" in val:
+        val = val["tail"]
+    return val
+
+
 def false_exit(fn, lp, call):
     """A `return false` inside the loop that is taken exactly when `call` yields false."""
     for r in hirq.walk(lp["body"]):
@@ -688,8 +707,9 @@ def run(ctx):
                 for i, (lp, call, el) in enumerate(loops):
                     cl = in_closure(fn, lp)
                     body = cl["body"] if cl is not None else fn.hir
-                    t = tail_of(body)
-                    ctx.ob("R08.1", site_key(fn, "completes with true", i), const_eval(t) is True, line_of(t), "value after the loop: %s" % describe(t))
+                    t = value_after(fn, lp, body)
+                    ctx.ob("R08.1", site_key(fn, "completes with true", i), t is not None and const_eval(t) is True, line_of(t if t is not None else lp),
+                           "value after the loop: %s" % (describe(t) if t is not None else "()"))
         # Script: loop over its own list calling Datamodel::executeContent
         sc = F.fns["<executable_content::Script as executable_content::ExecutableContent>::execute"]
         n_sc = 0
